@@ -148,6 +148,8 @@ Qed.
 
 Lemma flat_cons (a : list N) t : flat (a :: t) = a ++ flat t.
 Proof. reflexivity. Qed.
+Lemma flat_app (a b : image) : flat (a ++ b) = flat a ++ flat b.
+Proof. apply concat_app. Qed.
 Lemma flat_tz_segment x : flat (tz_segment x) = tz_export (m_tz x).
 Proof. unfold tz_segment, flat. destruct (tz_export (m_tz x)); simpl; [reflexivity|now rewrite app_nil_r]. Qed.
 
@@ -444,6 +446,9 @@ Proof. revert s; induction l as [|e t IH]; intros s; [reflexivity|]. cbn. now re
 Lemma take_last_app16 (a h : list N) : length h = 16%nat -> take_last 16 (a ++ h) = h.
 Proof. intros H. rewrite <- H. apply take_last_app. Qed.
 
+Lemma bind_ok {A B} (r : res A) (f : A -> res B) (b : B) : bind r f = Ok b -> exists a, r = Ok a /\ f a = Ok b.
+Proof. destruct r as [a|]; [eauto | discriminate]. Qed.
+
 Lemma table_export_inv es start T :
   table_export es start = Ok T -> es <> [] ->
   exists ent wn wp wm,
@@ -451,11 +456,9 @@ Lemma table_export_inv es start T :
     u32 RELOC_MARKER = Ok wm /\ T = table_images es ++ ent ++ wm ++ le_enc 4 0 ++ wn ++ wp.
 Proof.
   intros H NE. unfold table_export in H. destruct es as [|e t]; [contradiction|].
-  destruct (table_entries (e :: t) start) as [ent|] eqn:E1; cbn [bind] in H; [|discriminate].
-  destruct (u32 (Z.of_nat (length (e :: t)))) as [wn|] eqn:E2; cbn [bind] in H; [|discriminate].
-  destruct (u32 (start + zlen (table_images (e :: t)))) as [wp|] eqn:E3; cbn [bind] in H; [|discriminate].
-  destruct (u32 RELOC_MARKER) as [wm|] eqn:E4; cbn [bind] in H; [|discriminate].
-  injection H as <-. exists ent, wn, wp, wm. repeat apply conj; try assumption; reflexivity.
+  apply bind_ok in H as (ent & E1 & H). apply bind_ok in H as (wn & E2 & H).
+  apply bind_ok in H as (wp & E3 & H). apply bind_ok in H as (wm & E4 & H).
+  injection H as <-. exists ent, wn, wp, wm. auto.
 Qed.
 
 (* MultipleImageTable.parse (application ++ MultipleImageTable.export) gives the entries back and the place to cut *)
@@ -469,13 +472,13 @@ Proof.
   set (hdr := wm ++ le_enc 4 0 ++ wn ++ wp).
   assert (Lh : length hdr = 16%nat) by (unfold hdr; rewrite !app_length, le_enc_length; lia).
   set (imgs := table_images es) in *.
-  assert (Dd : A ++ imgs ++ ent ++ wm ++ le_enc 4 0 ++ wn ++ wp = (A ++ imgs ++ ent) ++ hdr) by (unfold hdr; now rewrite <- !app_assoc).
+  assert (Dd : A ++ imgs ++ ent ++ hdr = (A ++ imgs ++ ent) ++ hdr) by (now rewrite <- !app_assoc).
   unfold table_parse. rewrite Dd.
   replace (Nat.ltb (length ((A ++ imgs ++ ent) ++ hdr)) 16) with false by (symmetry; apply Nat.ltb_ge; rewrite app_length; lia).
   rewrite take_last_app16 by assumption.
   assert (V0 : rd32 0 hdr = RELOC_MARKER) by (unfold hdr; now apply rd32_u32).
   assert (V1 : rd32 4 hdr = 0).
-  { unfold hdr. rewrite <- L4. apply (rd32_at wm (le_enc 4 0) (wn ++ wp) 0). reflexivity. }
+  { unfold hdr. pose proof (rd32_at wm (le_enc 4 0) (wn ++ wp) 0 eq_refl) as X. rewrite L4 in X. exact X. }
   assert (V2 : rd32 8 hdr = Z.of_nat (length es)).
   { unfold hdr. replace (wm ++ le_enc 4 0 ++ wn ++ wp) with ((wm ++ le_enc 4 0) ++ wn ++ wp) by now rewrite <- app_assoc.
     replace 8%nat with (length (wm ++ le_enc 4 0)) by (rewrite app_length, le_enc_length; lia). now apply rd32_at. }
@@ -687,14 +690,14 @@ Proof.
   unfold sign, provider in E. destruct (provider_sign_plain _ W) as [PS|PS]; rewrite PS in E; cbn [bind fst snd] in E.
   - exists app', (flat rs). split; [assumption|]. split; [now left|]. split; [assumption|].
     unfold finalize, provider in E. rewrite PF in E. cbn [res_map] in E. injection E as <-.
-    cbn [app]. rewrite flat_cons, flat_app. f_equal. f_equal. exact FT.
+    cbn [app]. rewrite ?flat_cons, flat_app. f_equal. f_equal. exact FT.
   - cbn [app] in E.
     match type of E with context [crc_write _ 0 ?w] => remember w as cw eqn:Ecw end.
     rewrite crc_write_head in E by lia.
     cbn [bind fst snd] in E. unfold finalize, provider in E. rewrite PF in E. cbn [res_map] in E. injection E as <-.
     exists (wr OFF_CRC cw app'), (flat rs). split; [assumption|].
     split; [right; exists cw; split; [subst cw; apply le_enc_length|reflexivity]|]. split; [assumption|].
-    rewrite flat_cons, flat_app. f_equal. f_equal. exact FT.
+    rewrite ?flat_cons, flat_app. f_equal. f_equal. exact FT.
 Qed.
 
 (* TrustZone mixins of a class without certificate block *)
@@ -795,7 +798,7 @@ Proof.
         cbn [provider_in] in PR. destruct m; try discriminate PR; cbn [existsb]; rewrite ?(IH PR); reflexivity. }
       assert (TN : m_table x = None) by (destruct (m_table x) as [es|] eqn:Et; [destruct (HTb es eq_refl); congruence | reflexivity]).
       unfold table_part in TB. rewrite NA in TB. injection TB as <-. rewrite app_nil_r, TN.
-      f_equal. f_equal. apply mbi_ext; reflexivity.
+      reflexivity.
     - unfold disassembly_app_data. rewrite Wi, FLG. cbn [andb]. unfold table_part in TB.
       destruct (m_table x) as [es|] eqn:Et.
       + destruct (HTb es eq_refl) as [HA3 OKe]. rewrite HA3 in *. unfold has_table. rewrite Et. cbn [andb negb].
@@ -868,17 +871,15 @@ Proof. vm_compute. reflexivity. Qed.
 (* ------------------------------------------------------------------ total length = bytes emitted (plain / CRC classes) *)
 Lemma table_entries_mono es : forall s s' e, table_entries es s = Ok e -> 0 <= s' <= s -> exists e', table_entries es s' = Ok e'.
 Proof.
-  induction es as [|en t IH]; intros s s' e H R; [eexists; reflexivity|]. cbn [table_entries] in *.
-  destruct (u32 s) as [ws|] eqn:E1; cbn [bind] in H; [|discriminate].
-  destruct (u32 (e_dst en)) as [wd|] eqn:E2; cbn [bind] in H |- *; [|discriminate].
-  destruct (u32 (zlen (e_img en))) as [wl|] eqn:E3; cbn [bind] in H |- *; [|discriminate].
-  destruct (u32 (e_flags en)) as [wf|] eqn:E4; cbn [bind] in H |- *; [|discriminate].
-  destruct (table_entries t (s + _)) as [r|] eqn:E5; cbn [bind] in H; [|discriminate].
+  induction es as [|en t IH]; intros s s' e H R; [eexists; reflexivity|]. cbn [table_entries] in H |- *.
+  apply bind_ok in H as (ws & E1 & H). apply bind_ok in H as (wd & E2 & H). apply bind_ok in H as (wl & E3 & H).
+  apply bind_ok in H as (wf & E4 & H). apply bind_ok in H as (r & E5 & H).
   apply u32_value in E1 as [_ B1].
   assert (U : exists w, u32 s' = Ok w).
   { unfold u32. replace ((0 <=? s') && (s' <? 4294967296)) with true; [eauto|].
     symmetry. apply andb_true_iff. split; [apply Z.leb_le|apply Z.ltb_lt]; lia. }
-  destruct U as (w & ->). cbn [bind]. rewrite E2, E3, E4. cbn [bind].
+  destruct U as (w & ->). cbn [bind]. rewrite E2. cbn [bind]. rewrite E3. cbn [bind]. rewrite E4. cbn [bind].
+  pose proof (zlen_nonneg (pad4 (e_img en))) as Zp.
   destruct (IH _ (s' + zlen (pad4 (e_img en))) _ E5) as (r' & ->); [lia|]. cbn [bind]. eauto.
 Qed.
 
@@ -948,10 +949,11 @@ Proof.
     destruct (m_table x) as [es|]; [|now inversion TB]. symmetry. eapply table_export_len; [eassumption|apply zlen_nonneg]. }
   assert (TL : total_len c x = zlen (app'' ++ tb ++ tz_part c x)).
   { unfold total_len. rewrite (sum_len_plain x (c_mixins c) W' ND).
-    unfold has in Wa, NB. unfold hasl in *. rewrite Wa. rewrite !zlen_app, TBL. unfold zlen at 3. rewrite La''. fold (zlen (m_app x)).
-    unfold tz_part. rewrite has_attr_gives, (has_attr_tz_plain _ W'). unfold hasl.
+    unfold has in Wa, NB. unfold hasl in *. rewrite Wa. rewrite !zlen_app, TBL.
+    assert (ZA : zlen app'' = zlen (m_app x)) by (unfold zlen; now rewrite La'').
+    rewrite ZA. unfold tz_part. rewrite has_attr_gives, (has_attr_tz_plain _ W'). unfold hasl.
     destruct (existsb (mixin_eqb MixinTrustZone) (c_mixins c)), (existsb (mixin_eqb MixinTrustZoneMandatory) (c_mixins c));
-      try discriminate NB; cbn [orb]; unfold zlen; simpl length; lia. }
+      try discriminate NB; cbn [orb]; change (zlen (@nil N)) with 0; lia. }
   assert (F'' : rd32 OFF_LEN app'' = ivt_total c (total_len c x) /\ rd32 OFF_FLAGS app'' = create_flags c x /\ rd32 OFF_LOAD app'' = ivt_load c x).
   { destruct HA as [->|(w & Hw & ->)]; [auto|]. rewrite off_crc_eq, off_flags_eq, off_load_eq, off_len_eq in *.
     rewrite !rd32_wr_other by lia. auto. }
@@ -980,15 +982,13 @@ Qed.
 (* ================================================================== HMAC / key-store insertion (Mbi_ExportMixinHmacKeyStoreFinalize) *)
 Lemma hmac_off_eq : HMAC_OFF = 64%nat. Proof. reflexivity. Qed.
 Definition hmac_bytes (x : mbi) (hm : list N) : list N := hm ++ match m_ks x with Some b => b | None => [] end.
-Lemma flat_app (a b : image) : flat (a ++ b) = flat a ++ flat b.
-Proof. apply concat_app. Qed.
 Lemma flat_hmac_block x hm : flat (hmac_block x hm) = hmac_bytes x hm.
 Proof. unfold hmac_block, hmac_bytes, flat. destruct (m_ks x); simpl; now rewrite ?app_nil_r. Qed.
 
 Lemma hmac_split_after x hm im off : (64 < off)%nat -> hmac_insert_split x hm im off = im.
 Proof.
   revert off; induction im as [|s t IH]; intros off H; [reflexivity|]. cbn [hmac_insert_split].
-  rewrite hmac_off_eq. replace (Nat.leb off 64) with false by (symmetry; apply Nat.leb_gt; lia). cbn [andb].
+  change HMAC_OFF with 64%nat. replace (Nat.leb off 64) with false by (symmetry; apply Nat.leb_gt; lia). cbn [andb].
   rewrite IH by lia. reflexivity.
 Qed.
 Lemma hmac_between_done x hm im off : hmac_insert_between x hm im off true = im.
@@ -996,38 +996,37 @@ Proof.
   revert off; induction im as [|s t IH]; intros off; [reflexivity|]. cbn [hmac_insert_between].
   rewrite andb_false_r. cbn [orb app]. now rewrite IH.
 Qed.
-Lemma offsets_after im off : (64 < off)%nat -> existsb (Nat.eqb HMAC_OFF) (offsets_from im off) = false.
+Lemma offsets_after im off : (64 < off)%nat -> existsb (Nat.eqb 64) (offsets_from im off) = false.
 Proof.
   revert off; induction im as [|s t IH]; intros off H; [reflexivity|]. cbn [offsets_from existsb].
-  rewrite hmac_off_eq. replace (Nat.eqb 64 off) with false by (symmetry; apply Nat.eqb_neq; lia).
-  rewrite <- hmac_off_eq. apply IH. lia.
+  replace (Nat.eqb 64 off) with false by (symmetry; apply Nat.eqb_neq; lia). apply IH. lia.
 Qed.
 
 Lemma hmac_between_gen x hm im : forall off, (off <= 64)%nat ->
-  existsb (Nat.eqb HMAC_OFF) (offsets_from im off) = true ->
+  existsb (Nat.eqb 64) (offsets_from im off) = true ->
   flat (hmac_insert_between x hm im off false) = firstn (64 - off) (flat im) ++ hmac_bytes x hm ++ skipn (64 - off) (flat im).
 Proof.
   induction im as [|s t IH]; intros off Ho Ex; [discriminate|].
-  cbn [offsets_from existsb] in Ex. cbn [hmac_insert_between]. rewrite hmac_off_eq in *.
+  cbn [offsets_from existsb] in Ex. cbn [hmac_insert_between]. change HMAC_OFF with 64%nat.
   destruct (Nat.eqb off 64) eqn:E.
   - apply Nat.eqb_eq in E. subst off. cbn [andb negb orb]. rewrite hmac_between_done.
     rewrite Nat.sub_diag, firstn_O, skipn_O. rewrite flat_app, flat_hmac_block. cbn [app]. reflexivity.
   - cbn [andb orb app]. apply Nat.eqb_neq in E.
     replace (Nat.eqb 64 off) with false in Ex by (symmetry; apply Nat.eqb_neq; lia). cbn [orb] in Ex.
     assert (Ls : (off + length s <= 64)%nat).
-    { destruct (Nat.le_gt_cases (off + length s) 64); [assumption|]. rewrite <- hmac_off_eq, offsets_after in Ex by lia. discriminate. }
-    rewrite !flat_cons. rewrite (IH (off + length s)%nat Ls) by (rewrite hmac_off_eq; exact Ex).
+    { destruct (Nat.le_gt_cases (off + length s) 64); [assumption|]. rewrite offsets_after in Ex by lia. discriminate. }
+    rewrite !flat_cons. rewrite (IH (off + length s)%nat Ls Ex).
     rewrite firstn_app, skipn_app. rewrite (firstn_all2 s) by lia. rewrite (skipn_all2 s) by lia.
     replace (64 - (off + length s))%nat with (64 - off - length s)%nat by lia. cbn [app]. now rewrite <- app_assoc.
 Qed.
 
 Lemma hmac_split_gen x hm im : forall off, (off <= 64)%nat ->
-  existsb (Nat.eqb HMAC_OFF) (offsets_from im off) = false -> (64 < off + length (flat im))%nat ->
+  existsb (Nat.eqb 64) (offsets_from im off) = false -> (64 < off + length (flat im))%nat ->
   flat (hmac_insert_split x hm im off) = firstn (64 - off) (flat im) ++ hmac_bytes x hm ++ skipn (64 - off) (flat im).
 Proof.
   induction im as [|s t IH]; intros off Ho Ex Lt; [cbn in Lt; lia|].
-  cbn [offsets_from existsb] in Ex. apply orb_false_iff in Ex as [E0 Ex]. rewrite hmac_off_eq in *. apply Nat.eqb_neq in E0.
-  cbn [hmac_insert_split]. rewrite hmac_off_eq. rewrite flat_cons in Lt. rewrite app_length in Lt.
+  cbn [offsets_from existsb] in Ex. apply orb_false_iff in Ex as [E0 Ex]. apply Nat.eqb_neq in E0.
+  cbn [hmac_insert_split]. change HMAC_OFF with 64%nat. rewrite flat_cons in Lt. rewrite app_length in Lt.
   destruct (Nat.ltb 64 (off + length s)) eqn:C.
   - apply Nat.ltb_lt in C. replace (Nat.leb off 64) with true by (symmetry; apply Nat.leb_le; lia). cbn [andb].
     rewrite hmac_split_after by lia. rewrite !flat_app, flat_hmac_block, !flat_cons. unfold flat at 1 2. cbn [concat]. rewrite !app_nil_r.
@@ -1037,7 +1036,7 @@ Proof.
     assert (Ls : (off + length s < 64)%nat).
     { destruct (Nat.eq_dec (off + length s) 64) as [Q|Q]; [|lia]. exfalso.
       destruct t as [|s1 t1]; [cbn in Lt; lia|]. cbn [offsets_from existsb] in Ex. rewrite Q in Ex. cbn in Ex. discriminate. }
-    rewrite !flat_cons. rewrite (IH (off + length s)%nat) by (try lia; rewrite ?hmac_off_eq; assumption).
+    rewrite !flat_cons. rewrite (IH (off + length s)%nat) by (try lia; assumption).
     rewrite firstn_app, skipn_app. rewrite (firstn_all2 s) by lia. rewrite (skipn_all2 s) by lia.
     replace (64 - (off + length s))%nat with (64 - off - length s)%nat by lia. cbn [app]. now rewrite <- app_assoc.
 Qed.
@@ -1062,23 +1061,23 @@ Theorem hmac_finalize_inverse k c x st im dts :
      finalize_revert c st (flat im') = Ok (flat im)).
 Proof.
   intros P. split.
-  - intros Lt. unfold finalize. rewrite P. rewrite hmac_off_eq. replace (app_len c x <? Z.of_nat 64) with true by (symmetry; apply Z.ltb_lt; lia). reflexivity.
+  - intros Lt. unfold finalize. rewrite P. change HMAC_OFF with 64%nat. replace (app_len c x <? Z.of_nat 64) with true by (symmetry; apply Z.ltb_lt; lia). reflexivity.
   - intros Ge LF (kb & kt & Hk) Lh Lk Fl. unfold finalize. rewrite P, Hk.
-    rewrite hmac_off_eq. replace (app_len c x <? Z.of_nat 64) with false by (symmetry; apply Z.ltb_ge; lia).
+    change HMAC_OFF with 64%nat. replace (app_len c x <? Z.of_nat 64) with false by (symmetry; apply Z.ltb_ge; lia).
     set (F := flat im) in *. set (hm := k_hmac k (kb :: kt) (firstn 64 F)).
     assert (SHAPE : exists im', (if existsb (Nat.eqb 64) (offsets_from im 0)
                                  then Ok (hmac_insert_between x hm im 0 false) else Ok (hmac_insert_split x hm im 0)) = Ok im'
                                 /\ flat im' = firstn 64 F ++ hmac_bytes x hm ++ skipn 64 F).
     { destruct (existsb (Nat.eqb 64) (offsets_from im 0)) eqn:Ex; eexists; (split; [reflexivity|]).
-      - rewrite (hmac_between_gen x hm im 0) by (try lia; rewrite hmac_off_eq; exact Ex). now rewrite Nat.sub_0_r.
-      - rewrite (hmac_split_gen x hm im 0) by (try lia; rewrite ?hmac_off_eq; assumption). now rewrite Nat.sub_0_r. }
-    destruct SHAPE as (im' & E & FL). rewrite <- hmac_off_eq at 1. exists im'. split; [exact E|]. split; [exact FL|].
+      - rewrite (hmac_between_gen x hm im 0) by (try lia; exact Ex). now rewrite Nat.sub_0_r.
+      - rewrite (hmac_split_gen x hm im 0) by (try lia; assumption). now rewrite Nat.sub_0_r. }
+    destruct SHAPE as (im' & E & FL). exists im'. split; [exact E|]. split; [exact FL|].
     unfold finalize_revert. rewrite P, FL.
     assert (Lhm : length hm = 32%nat) by apply Lh.
     assert (L64 : length (firstn 64 F) = 64%nat) by (rewrite firstn_length; lia).
     assert (FS : flag_set (firstn 64 F ++ hmac_bytes x hm ++ skipn 64 F) G_KEY_STORE_FLAG = flag_set F G_KEY_STORE_FLAG).
     { unfold flag_set. rewrite get_flags_prefix by lia. rewrite <- (firstn_skipn 64 F) at 2. now rewrite get_flags_prefix by lia. }
-    rewrite FS, Fl. rewrite hmac_off_eq. f_equal.
+    rewrite FS, Fl. change HMAC_OFF with 64%nat. f_equal.
     change HMAC_SZ with 32%nat. change KS_SZ with 1424%nat.
     set (HB := hmac_bytes x hm).
     assert (LHB : (64 + 32 + (if match m_ks x with Some _ => true | None => false end then 1424 else 0))%nat
@@ -1150,6 +1149,7 @@ Proof.
       split; [exact La|]. split; [|eapply clean_update; eassumption].
       rewrite W. unfold ivt_crc. destruct (Z.eqb_spec (c_type c) 0); [contradiction|]. rewrite AL. reflexivity.
     - destruct (m_app x) as [|b t] eqn:Ea; [simpl in L; lia|]. destruct (m_cert x) as [cb|]; try discriminate C.
+      destruct (digest_guard c x cb) as [[]|]; [cbn [bind] in C|discriminate C].
       destruct (update_ivt c x (b :: t) _ _) as [app'|] eqn:U; [cbn [bind] in C|discriminate C].
       destruct (cert_export cb 1) as [cbb|]; [cbn [bind] in C|discriminate C].
       destruct (manifest_export c x 0) as [mf0|]; [cbn [bind] in C|discriminate C].
